@@ -16,6 +16,9 @@ MP = "EasyFEA.Models.InElastic._materialpoint"
 
 
 def run(ctx):
+    from ..shared import commit_idempotent_rule as _commit_idempotent_rule
+
+    _commit_idempotent_rule(ctx, "R19.10")
     repo = ctx.repo
     ctx.level = "other"
     ctx.explanation = (
